@@ -718,4 +718,13 @@ class E2EMirrorTies(Stream):
         return json.dumps(case, sort_keys=True) if out.get('compared', 0) >= 6 else None
 
 
-STREAMS = [MirrorAlign(), MirrorAlignTies(), E2EMirror(), E2EMirrorTies()]
+# C11_seeding_mirror / C11_first_pass_mirror_refuted are statements about the executable seeding model (model/Seeding.v): its correspondence
+# with the real seeding chain (harness/seeding.py, shared with C16 and C06) is part of this check too
+from .. import seeding as _sd
+
+
+class SeedingChain(_sd.SeedingChain):
+    n_quick, n_thorough = 16, 80
+
+
+STREAMS = [MirrorAlign(), MirrorAlignTies(), E2EMirror(), E2EMirrorTies(), SeedingChain()]
